@@ -402,3 +402,63 @@ Definition check_infnorm_ub (f : lpoly Q) (s : list Q) (cells : list (Q * Q)) (M
   autocorr_is f s && check_sup s cells M2.
 Definition check_infnorm_lb (f : lpoly Q) (s : list Q) (theta m2 : Q) : bool :=
   autocorr_is f s && check_exceeds s theta m2.
+
+(* ---- C18, all overlaps at once.  With a = cos t, sqrt(1-lambda) = |sin t|, L = 2d+1 (odd):
+     success probability  P(t) = SA(w)^2 + SB(w)^2,  SA = (A + ~A)/2, SB = (B + ~B)/2  for the element
+       A + B iX = R(pi/2) w R(phi_1 - pi/2) w ... w R(phi_n - pi/2) w R(0)      (w = e^{it}),
+     closed form          C(t) = 1 - delta^2 T_L(y sin t)^2 = 1 + delta^2 V_L(w)^2,
+       V_1 = y (w - 1/w)/2 = i y sin t,  V_k = i^k T_k(y sin t)  by the doubling formulas (log2 L levels, so that
+       interval widths stay small).
+   Both are Laurent polynomials with real coefficients bounded by 1/delta; the certificate bounds the
+   coefficient 1-norm of their difference, for every y in [ylo, yhi]. *)
+Section VDbl.
+  Context {D : Type} (O : Ops D).
+  Definition sg_of (k : nat) : D := if Nat.even k then d1 O else dneg O (d1 O).     (* (-1)^k *)
+  Definition two_of : D := dadd O (d1 O) (d1 O).
+  (* (V_k, V_{k+1}) for k = p, by the doubling formulas
+       V_2k = 2 V_k^2 - (-1)^k,  V_2k+1 = 2 V_k V_k+1 - (-1)^k V_1,  V_2k+2 = 2 V_k+1^2 + (-1)^k *)
+  Fixpoint v_pair (p : positive) (X1 : lpoly D) : option (lpoly D * lpoly D) :=
+    match p with
+    | xH => do v2 <- lp_add O (lp_scale O two_of (lp_mul O X1 X1)) (lp_Id O); Some (X1, v2)
+    | xO q =>
+        do ab <- v_pair q X1;
+        let sg := sg_of (Pos.to_nat q) in
+        do e <- lp_sub O (lp_scale O two_of (lp_mul O (fst ab) (fst ab))) (lp_scale O sg (lp_Id O));
+        do f <- lp_sub O (lp_scale O two_of (lp_mul O (fst ab) (snd ab))) (lp_scale O sg X1);
+        Some (e, f)
+    | xI q =>
+        do ab <- v_pair q X1;
+        let sg := sg_of (Pos.to_nat q) in
+        do e <- lp_sub O (lp_scale O two_of (lp_mul O (fst ab) (snd ab))) (lp_scale O sg X1);
+        do f <- lp_add O (lp_scale O two_of (lp_mul O (snd ab) (snd ab))) (lp_scale O sg (lp_Id O));
+        Some (e, f)
+    end.
+End VDbl.
+
+Definition shifted_cs (phis : list Q) : list (I * I) :=
+  (izero, ione) :: map (fun p => let cs := cos_sin_encl p in (snd cs, ineg (fst cs))) phis ++ [(ione, izero)].
+Definition sym_part_I (A : lpoly I) : option (lpoly I) := corner_diff OpsI (iofQ qhalf1) A (mk OpsI [] 0).
+Definition wdiff_poly : lpoly I := LP (-1) [ineg ione; ione] false.       (* w - 1/w *)
+Definition fp_closed_diff (d : nat) (phis : list Q) (delta ylo yhi : Q) : option (lpoly I) :=
+  let L := (2 * d + 1)%nat in
+  do g <- la_from_angles OpsI (shifted_cs phis);
+  do sa <- sym_part_I (la_I g);
+  do sb <- sym_part_I (la_X g);
+  do p <- lp_add OpsI (lp_mul OpsI sa sa) (lp_mul OpsI sb sb);
+  let y := ihull (iofQ ylo) (iofQ yhi) in
+  let X1 := lp_scale OpsI (imul (iofQ qhalf1) y) wdiff_poly in
+  do vv <- v_pair OpsI (Pos.of_nat L) X1;
+  let vL := fst vv in
+  let d2 := imul (iofQ delta) (iofQ delta) in
+  do c <- lp_add OpsI (lp_Id OpsI) (lp_scale OpsI d2 (lp_mul OpsI vL vL));
+  lp_sub OpsI p c.
+Definition check_fp_closed (d : nat) (phis : list Q) (delta ylo yhi tol : Q) : bool :=
+  Nat.eqb (length phis) (2 * d) && Qleb ylo yhi &&
+  match fp_closed_diff d phis delta ylo yhi with Some df => scaled_le_q (sum_ub (lp_coefs df)) tol | None => false end.
+(* the bracket of y = T_{1/L}(1/delta): 1 <= ylo, T_L(ylo) <= 1/delta <= T_L(yhi), exactly *)
+Definition check_y_bracket (d : nat) (delta ylo yhi : Q) : bool :=
+  let tl := chebP OpsQ false (2 * d + 1) in
+  let ev (x : Q) := fold_right (fun c acc => qadd c (Qmult x acc)) 0%Q tl in
+  Qltb 0 delta && Qleb 1 ylo && Qleb ylo yhi && Qleb (Qmult delta (ev ylo)) 1 && Qleb 1 (Qmult delta (ev yhi)).
+Definition fp_closed_norm (d : nat) (phis : list Q) (delta ylo yhi : Q) : option Z :=
+  match fp_closed_diff d phis delta ylo yhi with Some df => Some (sum_ub (lp_coefs df)) | None => None end.
